@@ -34,6 +34,9 @@ func NewResolver(db shared.DBNodeMap, c Config) Resolver {
 // Deprecated: Deprecated in favor of using Resolve function directly
 func (r Resolver) Resolve() error {
 	var err error
+	if err = checkDepth(r.config.MaxDepth, r.db); err != nil {
+		return err
+	}
 	for name := range r.db {
 		if err = r.resolveNode(name, 0); err != nil {
 			return err
@@ -102,10 +105,58 @@ func resolveNode(maxDepth int, db shared.DBNodeMap, name string, level int) erro
 }
 
 func Resolve(c Config, db shared.DBNodeMap) (shared.DBNodeMap, error) {
+	if err := checkDepth(c.MaxDepth, db); err != nil {
+		return db, err
+	}
 	for name := range db {
 		if err := resolveNode(c.MaxDepth, db, name, 0); err != nil {
 			return db, err
 		}
 	}
 	return db, nil
+}
+
+// checkDepth fails if any chain of references is maxDepth or more references
+// long, or cyclic. Unlike the depth test in resolveNode, which sees shorter
+// chains once some nodes are already resolved, the outcome does not depend on
+// the order in which the nodes are visited, and the recursion is bounded by
+// the number of nodes whatever maxDepth is.
+func checkDepth(maxDepth int, db shared.DBNodeMap) error {
+	const visiting = -1
+	heights := make(map[string]int, len(db))
+	var height func(name string) (int, error)
+	height = func(name string) (int, error) {
+		node, exists := db[name]
+		if !exists {
+			return 0, nil
+		}
+		if h, seen := heights[name]; seen {
+			if h == visiting {
+				return 0, fmt.Errorf("maximum resolution depth reached")
+			}
+			return h, nil
+		}
+		heights[name] = visiting
+		h := 0
+		for _, e := range node.Elements {
+			eh, err := height(e.Name)
+			if err != nil {
+				return 0, err
+			}
+			if eh+1 > h {
+				h = eh + 1
+			}
+		}
+		if h >= maxDepth {
+			return 0, fmt.Errorf("maximum resolution depth reached")
+		}
+		heights[name] = h
+		return h, nil
+	}
+	for name := range db {
+		if _, err := height(name); err != nil {
+			return err
+		}
+	}
+	return nil
 }
